@@ -32,6 +32,13 @@ def band(label):
     return int(m.group(1)) if m else None
 
 
+def family_band(label):
+    """(prefix, number) of a label made of one or two letters and a number: V50, and M50 / W50 / O50 should the library ever learn
+    another federation's spelling of the masters groups - whatever vocabulary it answers for must be monotone as well"""
+    m = re.match(r'^([A-Za-z]{1,2})([0-9]+)$', label)
+    return (m.group(1), int(m.group(2))) if m else None
+
+
 class Monitor(object):
     def __init__(self, ctx):
         self.ctx = ctx
@@ -49,6 +56,7 @@ class Monitor(object):
         self.check = self.u.check_event_code
         self.norm = self.u.normalize_event_code
         self.weights = {}     # (event, gender) -> {band: kg}
+        self.other_families = {}     # (event, gender, prefix other than V) -> {band: kg}
         self.ambient = None   # description of the perturbed process-wide state the current calls run under
 
     def on_weight(self, args, kwargs, out):
@@ -71,11 +79,14 @@ class Monitor(object):
         if b is not None and b >= 35 and b % 5 == 0:      # the five-year bands the library itself produces
             num = None if w == '' else float(w)
             self.weights.setdefault((e, g), {})[b] = num
+        fb = family_band(ag)
+        if fb is not None and fb[0] != 'V' and fb[1] >= 35 and fb[1] % 5 == 0 and len(ag) < 8:
+            self.other_families.setdefault((e, g, fb[0]), {})[fb[1]] = None if w == '' else float(w)
 
     def check_masters(self):
         """masters implements never get heavier as the band rises (numeric band order)"""
         ctx = self.ctx
-        for (e, g), d in sorted(self.weights.items()):
+        for (e, g), d in sorted(self.weights.items(), key=lambda kv: (kv[0][0], kv[0][1])):
             bands = sorted(d)
             prev = None
             for b in bands:
@@ -96,6 +107,25 @@ class Monitor(object):
                     ctx.violation(key, case, '<= %s (V%d)' % prev, w)
                 else:
                     ctx.nt(('band', e, g, b))
+                prev = (w, b) if prev is None or w <= prev[0] else prev
+
+    def check_other_families(self):
+        """a label family other than V that the library answers for (today none does): same rule, no gaps and never heavier"""
+        ctx = self.ctx
+        for (e, g, pre), d in sorted(self.other_families.items()):
+            if all(v is None for v in d.values()):
+                continue
+            prev = None
+            for b in sorted(d):
+                w = d[b]
+                ctx.count('eval.other-label-family-band')
+                case = {'e': e, 'g': g, 'ag': '%s%d' % (pre, b)}
+                if w is None:
+                    if prev is not None:
+                        ctx.violation('masters:no-implement-for-older-band:label-family-%s' % pre, case, '<= %s (as for %s%d)' % (prev[0], pre, prev[1]), 'no weight')
+                    continue
+                if prev is not None and w > prev[0]:
+                    ctx.violation('masters:heavier-implement-for-older-band:label-family-%s' % pre, case, '<= %s (%s%d)' % (prev[0], pre, prev[1]), w)
                 prev = (w, b) if prev is None or w <= prev[0] else prev
 
     def on_specific(self, args, kwargs, out):
@@ -200,6 +230,18 @@ def table_keys(ctx):
     for k in bs:
         m = re.match(r'^(U\d+)([MFX])(.+)$', k)
         keys.append(('bulgarian', m.group(3) if m else k))
+    # any other module-level table of a scoring module keyed '<gender>-<event code>' like the combined-events index (a table
+    # added later is a scoring table too): discovered on the tree under test, not listed here
+    known = set(id(x) for x in (am._scoring_objects,))
+    for mname, m in sorted(sys.modules.items()):
+        if not mname.startswith('athlib.') or m is None:
+            continue
+        for gname, gv in sorted(vars(m).items()):
+            if isinstance(gv, dict) and gv and id(gv) not in known and all(isinstance(k, str) for k in gv):
+                ks = [k for k in gv if re.match(r'^[MFmfXx]-[^-\s].*$', k)]
+                if ks and len(ks) == len(gv):
+                    for k in ks:
+                        keys.append(('discovered:%s.%s' % (mname.split('.', 1)[1], gname), k.split('-', 1)[1]))
     import athlib
     for name, ag in (('wma2015', athlib.ag2015), ('wma2023', athlib.ag2023), ('wma-athlons', athlib.aag)):
         data = ag.get_data()
@@ -215,6 +257,7 @@ def run_shard(ctx, spec):
     rnd = random.Random(ctx.seed)
     labels = ['U9', 'U11', 'U13', 'U14', 'U15', 'U16', 'U17', 'U18', 'U20', 'U23', 'SEN'] + ['V%02d' % b for b in range(35, 135, 5)]
     labels += labels_from_library(rnd, 3000 if ctx.tier == 'quick' else 40000)
+    labels += ['%s%d' % (pre, b) for pre in ('M', 'W', 'O', 'F', 'MV', 'WV', 'v', 'm', 'w') for b in range(35, 135, 5)]
     arbitrary = ['', 'weird', 'v40', 'V4', 'V', 'V035', 'V200', 'V1000', 'U', 'u13', 'SENIOR', 'OPEN', 'M40', 'W40', 'V40 ', ' V40', 'V99', 'V101',
                  'V36', 'V79', 'V80', 'V81', 'U12', 'U19', 'U21', 'None',
                  # characters str.isdigit() accepts and int() may not (superscripts, circled digits), other scripts' digits, signs
@@ -254,6 +297,7 @@ def run_shard(ctx, spec):
         prev = t
         ctx.count('eval.repeated-triple')
     mon.check_masters()
+    mon.check_other_families()
     # ambient state: the answers must not depend on process-wide settings an embedding application may have changed - here
     # the thread's decimal context (precision, rounding, traps).  The monitor itself uses floats and patterns only.
     import decimal
